@@ -25,7 +25,7 @@ type c15Case struct {
 }
 
 func recC15() *vkit.Recorder {
-	r := vkit.Rec("C15", "exploration", "rapid-generated jobs (scheme, path, params, simple relabeling) and target groups through the real TargetsDiscovery; metamorphic oracle: the hash multiset (ActiveTargets) and hash set (ActiveTargetsByHash) are invariant under permutation of targets and groups, moving a label between group and target, a repeated discovery round, a fresh TargetsDiscovery and fresh child processes; entries with equal final labels and URL collapse; a single-component edit (one label value, a param, the path, the scheme, the address) changes the hash; non-trivial = groups with >=2 targets and >=1 group label; distinct = digest of the case")
+	r := vkit.Rec("C15", "exploration", "rapid-generated jobs (scheme, path, params, simple relabeling) and target groups through the real TargetsDiscovery; metamorphic oracle: the hash multiset (ActiveTargets) and hash set (ActiveTargetsByHash) are invariant under permutation of targets and groups, moving a label between group and target, a repeated discovery round, a fresh TargetsDiscovery and fresh child processes; entries with equal final labels and URL collapse; writing the defaulted instance label out explicitly keeps the hash set; unit TestC15Explore: the real explorer probes still-held targets after a reload that adds params, the next discovery round must hash like a fresh process and the loaded configuration must be unmodified; a single-component edit (one label value, a param, the path, the scheme, the address) changes the hash; non-trivial = groups with >=2 targets and >=1 group label; distinct = digest of the case")
 	r.Assume("hash collisions (2^-64) are ignored")
 	return r
 }
